@@ -159,6 +159,19 @@ class WTr(pytlb.Tr):
         self.block([s for s in self.fn.body])           # parameters of a semantic type are NOT taken apart: they are stored whole
         return self.lines
 
+    def test(self, t):
+        # truthiness of an Optional int / bytes already known not to be None: the value's own truthiness
+        u, neg = t, False
+        while isinstance(u, ast.UnaryOp) and isinstance(u.op, ast.Not):
+            neg = not neg
+            u = u.operand
+        if isinstance(u, ast.Name) and u.id in self.narrow and self.narrow[u.id]['ctor'] == 'some' and self.narrow[u.id]['order'] == ['_']:
+            v, ty = self.narrow[u.id]['fields']['_']
+            if ty in (INT, NAT, UINT, BYTES):
+                c = self.truth((v, INT if ty == UINT else ty))
+                return ('cond', f'(¬ {c})' if neg else c)
+        return super().test(t)
+
     def if_(self, s, rest):
         # `if x:` / `if not x:` on an Optional int / bytes parameter: `x is not None and x` (None and 0 / b'' are both falsy)
         t = s.test
